@@ -273,16 +273,16 @@ def exec_routed_sched(job):
         if not isinstance(self.frame.lock, sched.TracedLock):
             self.frame.lock = sched.TracedLock(S, "route")
         r = orig_enter(self)
-        rev.append({"s": S.me() or 0, "e": "acq", "of": 0})
+        rev.append({"s": S.me() or 0, "e": "acq", "of": 0, "c": id(self)})
         return r
 
     def traced_exit(self, typ, val, tbk):
-        rev.append({"s": S.me() or 0, "e": "rel", "of": 0})
+        rev.append({"s": S.me() or 0, "e": "rel", "of": 0, "c": id(self)})
         return orig_exit(self, typ, val, tbk)
 
     def traced_send(self, *args, **kwds):
         S.point("send:route")
-        rev.append({"s": S.me() or 0, "e": "send", "of": 0})
+        rev.append({"s": S.me() or 0, "e": "send", "of": 0, "c": id(self)})
         return orig_send(self, *args, **kwds)
 
     def traced_await(*args, **kwds):
@@ -296,7 +296,7 @@ def exec_routed_sched(job):
             reg = bool(rsp) and rsp.enip.command == 0x0065       # connector creation: the Register Session reply
         except Exception:
             pass
-        rev.append({"s": S.me() or 0, "e": "rcvreg" if reg else "rcv", "of": of})
+        rev.append({"s": S.me() or 0, "e": "rcvreg" if reg else "rcv", "of": of, "c": id(args[0]) if args else id(kwds.get("cli"))})
         return rsp, ela
     mem1 = end1 = []
     try:
@@ -414,7 +414,17 @@ def routed_part(ctx, wd, rng):
     ev.tlc("model:routeconn-send-first(expected to violate OwnReply)", rc2)
     if rc2.violated != "OwnReply":
         ctx.machinery.append("RouteConn: OwnReply is vacuous (the send-first discipline does not violate it)")
-    logs = [ln for ln in slines if ln.get("rev")]
+    # one log per connector OBJECT: two sessions' first routed requests may each create a connection (check-then-create in UCMM.request is not
+    # locked; the later one replaces the earlier in route_conn, the earlier serves out its one request): each connection has its own lock and wire
+    logs = []
+    for ln in slines:
+        conns = []
+        for e in ln.get("rev", []):
+            if e.get("c") not in conns:
+                conns.append(e.get("c"))
+        for c in conns:
+            logs.append(dict(ln, rev=[{k: v for k, v in e.items() if k != "c"} for e in ln["rev"] if e.get("c") == c]))
+    ev.extra["routeconn_runs_with_two_connections"] = sum(1 for ln in slines if len(set(e.get("c") for e in ln.get("rev", []))) > 1)
     if len(logs) < len(slines) // 2:
         ctx.machinery.append("route connection event logs missing: %d of %d" % (len(logs), len(slines)))
     if logs:
